@@ -580,6 +580,13 @@ pub fn exec(tw: &TcpWorld, uw: &c07::World, ops: &[Op], up_is_outbound: bool, wi
             // the real listener, queried from another thread while this one keeps the runtime turning
             let (tx, rx) = std::sync::mpsc::channel();
             std::thread::spawn(move || {
+                // other connections to the listener that have not sent a (complete) request must not delay the scrape
+                let _silent: Vec<TcpStream> = (0..2).filter_map(|_| TcpStream::connect_timeout(&addr, Duration::from_secs(2)).ok()).collect();
+                let mut _half = TcpStream::connect_timeout(&addr, Duration::from_secs(2)).ok();
+                if let Some(h) = _half.as_mut() {
+                    let _ = h.write_all(b"GET /metr");
+                }
+                std::thread::sleep(Duration::from_millis(30));
                 let m = http_get(addr, "/metrics");
                 let hc = http_get(addr, "/health-check");
                 let other = http_get(addr, "/nope");
